@@ -28,7 +28,7 @@ from harness.core import Stream
 from harness.props import c05 as D
 
 ALL_SMALL = [(a, b, c) for a in (2, 3) for b in (2, 3) for c in (2, 3)]
-EXTRA_SIZES = [(2, 3, 4), (4, 2, 2), (2, 4, 3)]
+EXTRA_SIZES = [(2, 3, 4), (4, 2, 2), (2, 4, 3), (3, 3, 4), (4, 4, 4)]
 AXES = ('x', 'y', 'z')
 
 
@@ -210,6 +210,8 @@ def weight12_stream(ctx, rng, name='xcube-weight-1-2') -> Stream:
     sizes = ALL_SMALL + (EXTRA_SIZES if thorough else EXTRA_SIZES[:1])
     for size in sizes:
         n = 3 * size[0] * size[1] * size[2]
+        if n > 100 and not thorough:
+            continue
         spec = {'size': list(size), 'direction': [0.25, 0.25, 0.5], 'p': 0.125}
         w1 = [([q], []) for q in range(n)]
         extra = [([], [int(q)]) for q in rng.choice(n, 3, replace=False)] + \
@@ -219,8 +221,8 @@ def weight12_stream(ctx, rng, name='xcube-weight-1-2') -> Stream:
             xcube_case(s, spec, ch, f'w1:{shape(size)}', with_struct=first)
             first = False
         pairs = list(itertools.combinations(range(n), 2))
-        if not (thorough and n <= 36):
-            k = 140 if thorough else (42 if n <= 36 else 28)
+        if not (thorough and n <= 54):
+            k = (420 if n <= 100 else 56) if thorough else (42 if n <= 36 else 28)
             pairs = [pairs[i] for i in sorted(rng.choice(len(pairs), min(k, len(pairs)), replace=False))]
         for ch in chunks([([a, b], []) for a, b in pairs], 14):
             xcube_case(s, spec, ch, f'w2:{shape(size)}')
@@ -233,7 +235,7 @@ def random_stream(ctx, rng, name='xcube-random-deformed-malformed') -> Stream:
     thorough = ctx.thorough
     s = Stream(name)
     from panqec.codes import XCubeCode
-    sizes = ALL_SMALL + EXTRA_SIZES[: (3 if thorough else 1)]
+    sizes = ALL_SMALL + EXTRA_SIZES[: (5 if thorough else 1)]
     for size in sizes:
         code = XCubeCode(*size)
         for rep in range(3 if thorough else 1):
